@@ -75,8 +75,14 @@ pub fn build(rng: &mut Rng, plan: &Plan) -> Result<Built, String> {
             let name = String::from_utf8(plan.names[*f].clone()).map_err(|_| "name not utf8")?;
             ids[*f] = Some(w.start_file(&name).map_err(|e| format!("start: {e:?}"))?);
         }
-        w.append_file_content(ids[*f].unwrap(), piece.len() as u64, piece.as_slice())
-            .map_err(|e| format!("append: {e:?}"))?;
+        if !piece.is_empty() && (k + piece.len()) % 5 == 0 {
+            // the same append through helpers::StreamWriter (one write call = one append)
+            use std::io::Write;
+            mla::helpers::StreamWriter::new(&mut w, ids[*f].unwrap()).write_all(piece).map_err(|e| format!("stream writer: {e:?}"))?;
+        } else {
+            w.append_file_content(ids[*f].unwrap(), piece.len() as u64, piece.as_slice())
+                .map_err(|e| format!("append: {e:?}"))?;
+        }
         contents[*f].extend_from_slice(piece);
         if last_piece[*f] == Some(k) {
             w.end_file(ids[*f].unwrap()).map_err(|e| format!("end: {e:?}"))?;
